@@ -151,7 +151,7 @@ def cmp_table(name, v, j, pf, path):
             known.add(f)
             if f in v:
                 if f in j: cmp_scalar(t, v[f], j[f], pf, p)
-                elif not ((pf & PF_SKIP_DEFAULT) and v[f] == d and not (isinstance(v[f], float) and str(v[f]) != str(float(d)))):
+                elif d is None or not ((pf & PF_SKIP_DEFAULT) and v[f] == d and not (isinstance(v[f], float) and str(v[f]) != str(float(d)))):
                     raise Diff('%s: present scalar %r not printed' % (p, v[f]))
             elif f in j:
                 if not (pf & PF_FORCE_DEFAULT): raise Diff('%s: absent scalar printed as %r' % (p, j[f]))
@@ -483,6 +483,21 @@ def run(ctx):
         v = {'xs': [mk('DepMid') for _ in range(rng.choice([2, 3]))], 'a': mk('DepMid'), 'b': mk('DepMid'), 'ys': [mk('DepLast') for _ in range(2)]}
         st = U.Style(rng, strict=True); st.union_order = ['type_first', 'value_first', 'split'][k % 3]; st.omit_struct_fields = False
         cases.append(('repeated-multi-union', 'Multi', v, U.render_root('Multi', v, st), rng.choice([0, 1, 2]), rng.choice([0, 2]), True))
+    # optional scalars (`= null`): present with all-zero bits, present non-zero, absent - presence is part of the value under every flag set
+    opt_docs = [({'i': 0, 'b': False, 'u': 0, 'e': 0, 'l': 0, 'f': 0.0, 'd': 0.0, 'n': 0}), ({'i': 5, 'b': True, 'u': 255, 'e': 7, 'l': -1, 'f': 1.5, 'd': -2.5, 'n': 3}),
+                ({}), ({'i': 0}), ({'b': False, 'n': 1}), ({'f': 0.0}), ({'d': 0.0, 'e': 0}), ({'u': 0, 'l': 0, 'i': 7})]
+    for v in opt_docs:
+        st = U.Style(rng, strict=True); st.enum_mode = 'num'
+        text = U.render_root('Opt', v, st)
+        for pf in allpf:
+            cases.append(('optional-scalars', 'Opt', v, text, pf, 0, True))
+    # a union whose TYPE field is stored explicitly with NONE (0) and no value: only a low-level builder writes that, so the buffer is laid out
+    # here by hand (DepFirst: ids 0,1 deprecated union; 2 = u_type, 3 = u, 4,5 = v, 6 = n) and handed to the harness as bytes (request rtb)
+    import struct as _st
+    vt = _st.pack('<HH7H', 18, 12, 0, 0, 4, 0, 0, 0, 8) + b'\0\0'
+    none_buf = _st.pack('<I', 28) + b'C4RT' + vt + _st.pack('<iB3xi', 20, 0, 5)
+    for pf in allpf:
+        cases.append(('union-type-none-stored', 'DepFirst', None, none_buf, pf, 0, False))
     # a bit_flags enum that defines every bit of its base type: value 0 (no flag), all bits, in a field and in a vector
     for body, v in ((b'{"full":0}', {'full': 0}), (b'{"full":255}', {'full': 255}), (b'{"vfull":[0,1,255,0]}', {'vfull': [0, 1, 255, 0]}), (b'{"vfull":[0]}', {'vfull': [0]}),
                     (b'{"full":128,"vfull":[3,0,0]}', {'full': 128, 'vfull': [3, 0, 0]}), (b'{}', {})):
@@ -493,7 +508,7 @@ def run(ctx):
         for fv in (0.1, 16777216.0, 1e-10, 3.4028234663852886e38, 1.17549435e-38, -0.0):
             v = {'f64': dv, 'f32': struct_f32(fv)}
             cases.append(('floats', 'Root', None, b'{"f64":%s,"f32":%s}' % (repr(dv).encode(), repr(struct_f32(fv)).encode()), 0, 0, True))
-    lines = ['rt %s %d %d 2 %s' % (root, pf, indent, U.hx(text)) for _, root, _, text, pf, indent, _ in cases]
+    lines = ['%s %s %d %d 2 %s' % ('rtb' if klass_ == 'union-type-none-stored' else 'rt', root, pf, indent, U.hx(text)) for klass_, root, _, text, pf, indent, _ in cases]
     ctx.log('round trips: %d requests' % len(lines))
     open(os.path.join(ctx.bdir, 'rt_lines.txt'), 'w').write('\n'.join(lines) + '\n')
     rep = U.run_resilient(H, lines)
